@@ -18,6 +18,11 @@ use std::rc::Rc;
 
 static ANY_ERROR_ID: std::sync::atomic::AtomicBool = std::sync::atomic::AtomicBool::new(false);
 
+/// equality of two observations; with --any-error-id two errors are alike whatever their identity
+fn same_obs(a: &Obs, b: &Obs) -> bool {
+    a.bits_eq(b) || (ANY_ERROR_ID.load(std::sync::atomic::Ordering::Relaxed) && matches!((a, b), (Obs::Err(_), Obs::Err(_))))
+}
+
 struct Machine {
     feed: Box<dyn FnMut(&Value, Time, &Conc)>,
     update: Box<dyn FnMut() -> NothingOrError<E>>,
@@ -450,7 +455,7 @@ fn replay(beh: &Value, line: usize, conc: &Conc, rep: &mut Report, structure_onl
         };
         for _ in 1..ngets {
             let again = catch(|| (main.get)()).map(|x| x.0).unwrap_or(Obs::Panic("panic".into()));
-            if !again.bits_eq(&obs) {
+            if !same_obs(&again, &obs) {
                 ctx.bad(idx, "repeated get() differs", obs.to_json(), again.to_json());
                 return;
             }
@@ -486,7 +491,7 @@ fn replay(beh: &Value, line: usize, conc: &Conc, rep: &mut Report, structure_onl
         // reset twin: a new stream fed the events from the last reset onward shows the same
         if rt.is_ok() {
             let tobs = catch(|| (twin.get)()).map(|x| x.0).unwrap_or(Obs::Panic("panic".into()));
-            if !tobs.bits_eq(&obs) {
+            if !same_obs(&tobs, &obs) {
                 ctx.bad(idx, "reset twin (fresh stream fed the events since the last reset) differs", tobs.to_json(), obs.to_json());
                 return;
             }
@@ -494,7 +499,7 @@ fn replay(beh: &Value, line: usize, conc: &Conc, rep: &mut Report, structure_onl
         if let Some(v) = variant.as_mut() {
             let _ = drive(v);
             let vobs = catch(|| (v.get)()).map(|x| x.0).unwrap_or(Obs::Panic("panic".into()));
-            if !vobs.bits_eq(&obs) {
+            if !same_obs(&vobs, &obs) {
                 ctx.bad(idx, "Quantity variant of the filter differs from the f32 variant", obs.to_json(), vobs.to_json());
                 return;
             }
@@ -517,7 +522,7 @@ fn replay(beh: &Value, line: usize, conc: &Conc, rep: &mut Report, structure_onl
         }
         if ignores_absent && skip_fed {
             let sobs = catch(|| (skip.get)()).map(|x| x.0).unwrap_or(Obs::Panic("panic".into()));
-            if !sobs.bits_eq(&obs) {
+            if !same_obs(&sobs, &obs) {
                 ctx.bad(idx, "skip-absent twin (same history without the absent events) differs", sobs.to_json(), obs.to_json());
                 return;
             }
